@@ -389,7 +389,7 @@ func (vp *vestingPool) excess() (amount currency.Coin, err error) {
 		}
 		need = newNeed
 	}
-	return vp.Balance - need, nil
+	return currency.MinusCoin(vp.Balance, need)
 }
 
 func (vp *vestingPool) delete(destID string) (err error) {
